@@ -428,6 +428,11 @@ func (x *Exec) applyContract(st *State, fr *Frame, c *callCtx, ct *Contract) {
 			continue
 		}
 		nm := fmt.Sprintf("ghost.%s!%d", f[0], x.callCounter)
+		if c.fn != nil && c.fn == x.fn {
+			// a recursive call: the callee's contract holds for every value of its ghost, in particular
+			// for the caller's own
+			nm = "ghost." + f[0]
+		}
 		switch f[1] {
 		case "int":
 			ghosts[f[0]] = TV{VScalar{x.sym.Named(nm, SInt)}, types.Typ[types.Int]}
@@ -769,6 +774,38 @@ func (x *Exec) appendBuiltin(st *State, fr *Frame, c *callCtx) {
 			}
 		}
 	}
+	addCells(s0, IntLit(0), e0, c0)
+	// a tracked cell of the first operand whose index may be >= its length (it was materialised by a read
+	// at an arbitrary index) must not shadow the appended elements: decide now whether it lies in range
+	if !c0 && s0.Arr >= 0 {
+		if abs, ok := st.heap[s0.Arr].(*VAbsArr); ok {
+			for ci, cell := range abs.Cells {
+				inRange := Lt(cell.Idx, s0.Len)
+				if inRange.IsTrue() {
+					continue
+				}
+				ts, fs := x.fork(st, inRange, "tracked cell in range")
+				if fs != nil {
+					// out of range in this state: the cell is meaningless, forget it and redo the append
+					cp := *(fs.heap[s0.Arr].(*VAbsArr))
+					cp.Cells = append(append([]AbsCell(nil), cp.Cells[:ci]...), cp.Cells[ci+1:]...)
+					fs.heap[s0.Arr] = &cp
+					if fs != st {
+						x.push(fs)
+					}
+				}
+				if ts == nil {
+					if fs == st {
+						// the current state itself lost the cell: restart the append on it
+						x.appendBuiltin(st, fr, c)
+					}
+					return
+				}
+			}
+		}
+	}
+	// rebuild the cell list (states may have been refined above)
+	na.Cells = nil
 	addCells(s0, IntLit(0), e0, c0)
 	addCells(s1, s0.Len, e1, c1)
 	x.notes["append on a slice of symbolic length: elements beyond the tracked cells become unconstrained"] = true
